@@ -6,7 +6,7 @@ import (
 )
 
 func init() {
-	runners["C20"] = func(module string, seed int64, tier string, d *hx.Driver) *hx.Result {
-		return c20.Run(c20.Config{Module: module, Seed: seed, Tier: tier, Driver: d})
+	runners["C20"] = func(module string, seed int64, tier string, d *hx.Driver, replay []string) *hx.Result {
+		return c20.Run(c20.Config{Module: module, Seed: seed, Tier: tier, Driver: d, Replay: replay})
 	}
 }
